@@ -29,7 +29,7 @@ ANCHORS = [
     ("pipefunc/map/_mapspec.py", ["mapspec_axes"]),
     ("pipefunc/map/_run_info.py", ["RunInfo.create", "_compare_to_previous_run_info"]),
 ]
-RULE = ("valid structural map requests of the C01 generator (internal axes after the mapped axes) x families of "
+RULE = ("valid structural map requests of the C01 generator (internal axes at any position) x families of "
         "fixed_indices requests on 1-2 axes of the root inputs: partitions of range(size) into ints / slices (negative "
         "ints, negative steps, None and negative bounds, strided classes), overlapping and incomplete families, every "
         "order for <= 3 parts (thorough) else a random order, each part run with cleanup=False on the same folder, then a "
@@ -39,7 +39,6 @@ RULE = ("valid structural map requests of the C01 generator (internal axes after
         "non-trivial = >= 2 parts or a learner run; distinct by (specs, shapes, parts/order)")
 ASSUMPTIONS = ["sequential semantics (parallel=False)",
                "user functions are deterministic and return arrays of the declared internal shape",
-               "internal axes come after the mapped axes of an output (normalize_key(for_dump=True) defect is repaired elsewhere)",
                "to_slurm_run, create_learners_from_sweep, to_adaptive_learner, resources_scope='element' are out of scope"]
 TRUSTED = ["Model/MapResume.v mirrors _run.py/_prepare.py/adaptive.py by hand; NumPy boolean assignment and "
            "slice.indices are mirrored by Base/PyRange.v (compared exhaustively with CPython on every run)",
@@ -69,8 +68,6 @@ def gen_req(rng, max_funcs=3, max_size=3, small=False):
     while True:
         r = mapgen.gen_request(rng, max_funcs=max_funcs, max_size=max_size, max_rank=2 if small else 3,
                                storages=("file_array",))
-        if not internal_after_mapped(r):
-            continue
         if mapgen.request_size(r) > 30:
             continue
         r["storage"] = rng.choice(STORAGES)
@@ -640,7 +637,8 @@ def nontrivial_key(c):
 def distribution(c):
     if c["kind"] == "range":
         return {"kind": "range"}
-    d = {"kind": c["kind"], "tag": c.get("tag"), "storage": c["req"].get("storage"), "nfuncs": len(c["req"]["funcs"])}
+    d = {"kind": c["kind"], "tag": c.get("tag"), "storage": c["req"].get("storage"), "nfuncs": len(c["req"]["funcs"]),
+         "internal_before_mapped": not internal_after_mapped(c["req"])}
     if c["kind"] == "parts":
         d["nparts"] = len(c["parts"])
         d["naxes"] = len({a for p in c["parts"] for a, _ in p})
